@@ -2472,16 +2472,19 @@ pub fn compile<I: BufRead, O: Write>(
             let mut ex = e.clone();
             let filename;
             let line;
+            let included_in;
             ex.line_col = match e.line_col {
                 LineColLocation::Pos((l, c)) => {
                     if l - 1 < mapped_lines.len() {
                         filename = mapped_lines[l - 1].0.clone();
                         line = mapped_lines[l - 1].1;
+                        included_in = mapped_lines[l - 1].2.clone();
                         LineColLocation::Pos((mapped_lines[l - 1].1 as usize, c))
                     } else {
                         let l = mapped_lines.len();
                         filename = mapped_lines[l - 1].0.clone();
                         line = mapped_lines[l - 1].1;
+                        included_in = mapped_lines[l - 1].2.clone();
                         LineColLocation::Pos((mapped_lines[l - 1].1 as usize, c))
                     }
                 }
@@ -2490,6 +2493,7 @@ pub fn compile<I: BufRead, O: Write>(
                     if l1 - 1 < mapped_lines.len() {
                         filename = mapped_lines[l1 - 1].0.clone();
                         line = mapped_lines[l1 - 1].1;
+                        included_in = mapped_lines[l1 - 1].2.clone();
                         LineColLocation::Span(
                             (mapped_lines[l1 - 1].1 as usize, c1),
                             (mapped_lines[l2 - 1].1 as usize, c2),
@@ -2498,6 +2502,7 @@ pub fn compile<I: BufRead, O: Write>(
                         let l1 = mapped_lines.len();
                         filename = mapped_lines[l1 - 1].0.clone();
                         line = mapped_lines[l1 - 1].1;
+                        included_in = mapped_lines[l1 - 1].2.clone();
                         LineColLocation::Span(
                             (mapped_lines[l1 - 1].1 as usize, c1),
                             (mapped_lines[l2 - 1].1 as usize, c2),
@@ -2508,7 +2513,7 @@ pub fn compile<I: BufRead, O: Write>(
             eprintln!("{}", ex);
             return Err(Error::Syntax {
                 filename: filename.to_string(),
-                included_in: None,
+                included_in: included_in.map(|iin| (iin.0.to_string(), iin.1)),
                 line,
                 msg: e.variant.message().to_string(),
             });
